@@ -43,11 +43,22 @@ class Model:
         self.held = {"o1": True, "o2": True, "K": True}
         self.gen = 0
         self.unjudged = False  # forced replacement of the daemon's own id: explored, not judged
+        self.current = {}      # label -> the id it was registered under last (what the object itself remembers)
+        self.double = set()    # labels that were forced under a second id while still holding another one: only their *current* id is judged
+        self.double_age = 0    # operations applied since the first such forcing (those states are explored two operations deep)
+        self.nops = 0
+        self.double_until = 2  # an object may be forced under a second id by one of the first N operations of a history; later ones are not followed
 
     def ids_of(self, lab):
         return [i for i, (l, w) in self.reg.items() if l == lab]
 
     def apply(self, op):
+        if self.double:
+            self.double_age += 1
+        self.nops += 1
+        return self._apply(op)
+
+    def _apply(self, op):
         k = op[0]
         if k == "register":
             _, lab, oid, force, weak = op
@@ -56,6 +67,8 @@ class Model:
             if lab == "K" and weak:
                 return ("exc", "TypeError")
             if not force:
+                if self.ids_of(lab) and lab in self.double:
+                    return ("lenient-register", (lab, oid, weak))     # whether the object still 'has a Pyro id' is not defined for it
                 if self.ids_of(lab):
                     return ("exc", "DaemonError")
                 if oid is not None and (oid in self.reg or oid == DAEMON):
@@ -66,9 +79,13 @@ class Model:
             if oid == DAEMON:
                 self.unjudged = True
             if force and any(i != oid for i in self.ids_of(lab)):
-                # one object forced under a second id: the statement does not say which id 'the' registration is afterwards
-                self.unjudged = True
+                # one object forced under a second id: the statement does not say what unregister(obj) means afterwards;
+                # from here on only its current id is judged (it must stay usable as long as it is registered to the object)
+                if self.nops > self.double_until:
+                    self.unjudged = True     # deeper in a history this corner is not followed (bounded; see evidence)
+                self.double.add(lab)
             self.reg[oid] = (lab, weak)
+            self.current[lab] = oid
             return ("ok", oid)
         if k == "unregister_obj":
             lab = op[1]
@@ -76,12 +93,20 @@ class Model:
                 return ("ok", None)       # the daemon's own object cannot be unregistered: silently ignored
             if not self.held[lab]:
                 return ("skip", None)
+            if lab in self.double:
+                # only the id the object remembers is given up
+                cur = self.current.get(lab)
+                if cur is not None and self.reg.get(cur, (None,))[0] == lab and cur != DAEMON:
+                    del self.reg[cur]
+                self.current[lab] = None
+                return ("lenient", None)
             ids = self.ids_of(lab)
             if not ids:
                 return ("exc", "DaemonError")
             for i in ids:
                 if i != DAEMON:
                     del self.reg[i]
+            self.current[lab] = None
             return ("ok", None)
         if k == "unregister_id":
             oid = op[1]
@@ -212,6 +237,17 @@ def observe(world, model, errors, V, hist, st):
     if DAEMON not in d.objectsById or getattr(d.objectsById[DAEMON], "_pyroId", None) != DAEMON:
         V("daemon-object-unregistered-or-damaged", "objectsById has no intact %s entry any more: %r" % (DAEMON, sorted(d.objectsById)), hist)
         return
+    if model.double:
+        # ids of objects registered several times: the registry itself is taken as given for them (only their current id is judged)
+        for i, o in list(d.objectsById.items()):
+            t = o() if isinstance(o, weakref.ref) else o
+            lab = getattr(t, "label", None)
+            ni = world.norm_id(i)
+            if lab in model.double and ni not in model.reg:
+                model.reg[ni] = (lab, isinstance(o, weakref.ref))
+        for ni, (lab, wk) in list(model.reg.items()):
+            if lab in model.double and ni not in {world.norm_id(i) for i in d.objectsById}:
+                del model.reg[ni]
     want_ids = set(model.reg) | {DAEMON, "host"}
     got_ids = {world.norm_id(i) for i in d.objectsById[DAEMON].registered()} if not model.unjudged else None
     if got_ids is not None and got_ids != want_ids:
@@ -247,6 +283,11 @@ def observe(world, model, errors, V, hist, st):
             if obj is None:
                 continue
             ids = model.ids_of(lab)
+            if lab in model.double:
+                cur = model.current.get(lab)
+                if cur is None or model.reg.get(cur, (None,))[0] != lab:
+                    continue      # nothing is claimed about an object under several ids beyond its current registration
+                ids = [cur]
             st.points += 2
             try:
                 u = ("ok", world.norm_id(d.uriFor(obj).object))
@@ -309,11 +350,20 @@ def expand_task(unit):
     def replay(h):
         world = World(sername)
         model = Model()
+        model.double_until = 2 if quick else 3
         ok = True
         for op in h:
             want = model.apply(op)
             got = world.apply(op, errors)
-            if want != got and not (op[0] == "unregister_obj" and want == ("exc", "DaemonError")):
+            if want[0] == "lenient-register":
+                lab_, oid_, weak_ = want[1]
+                if got[0] == "ok":
+                    model.reg[got[1]] = (lab_, weak_)
+                    model.current[lab_] = got[1]
+                    if oid_ is None:
+                        model.gen += 1
+                want = got
+            if want != got and want[0] != "lenient" and not (op[0] == "unregister_obj" and want == ("exc", "DaemonError")):
                 ok = False
         return world, model, ok
     gc.disable()
@@ -325,6 +375,10 @@ def expand_task(unit):
         finally:
             world.close()
         gc.collect()
+        if model.double and model.double_age >= 1:
+            # states of an object held under several ids are observed, not expanded further
+            st.outcomes["double-id-state-observed-only"] = st.outcomes.get("double-id-state-observed-only", 0) + 1
+            return st, succ
         for op in alphabet(quick):
             world, model, ok = replay(hist)
             try:
@@ -337,6 +391,16 @@ def expand_task(unit):
                     continue
                 if op[0] == "unregister_obj" and want == ("exc", "DaemonError") and got == ("ok", None):
                     got = want     # unregistering something that is not registered may also be a silent no-op (as it is for unknown ids)
+                if want[0] == "lenient":
+                    want = got     # explored, outcome not judged
+                if want[0] == "lenient-register":
+                    lab_, oid_, weak_ = want[1]
+                    if got[0] == "ok":
+                        model.reg[got[1]] = (lab_, weak_)
+                        model.current[lab_] = got[1]
+                        if oid_ is None:
+                            model.gen += 1
+                    want = got
                 if want != got and not model.unjudged:
                     if want[0] == "exc" and got[0] == "ok":
                         V("operation-not-refused|%s|%s" % (op[0], "weak" if (op[0] == "register" and op[4]) else "strong"), "model refuses with %s, daemon returned %r" % (want[1], got), h2)
@@ -349,7 +413,10 @@ def expand_task(unit):
                     st.outcomes["unjudged:forced-daemon-id"] = st.outcomes.get("unjudged:forced-daemon-id", 0) + 1
                     continue
                 # the state right after the operation is checked when it is expanded; the dedup key must tell states apart
-                key = digest([repr(world.key()), sorted(model.reg.items()), sorted(model.held.items())])
+                if model.double and model.double_age >= 2:
+                    st.outcomes["double-id-state-not-expanded-further"] = st.outcomes.get("double-id-state-not-expanded-further", 0) + 1
+                    continue
+                key = digest([repr(world.key()), sorted(model.reg.items()), sorted(model.held.items()), sorted(model.double), sorted((k, str(v)) for k, v in model.current.items())])
                 succ.append((key, [list(o) for o in h2]))
                 oc = "%s:%s" % (op[0], want[0] if want[0] == "exc" else "ok")
                 st.outcomes[oc] = st.outcomes.get(oc, 0) + 1
@@ -407,7 +474,7 @@ def run(ctx):
     cov["exhaustive"] = not capped
     return {"violations": total.violations, "coverage": cov,
             "assumptions": ["forced replacement of the daemon's own id is explored but not judged ('silently' is read as 'without force')",
-                            "forcing one object under a second id is explored but not judged (the statement does not define which id is 'the' registration then)"]}
+                            "after one object was forced under a second id only its current registration is judged (still usable through uriFor and as an auto-proxy while registered); what unregister(obj) then means is explored but not judged"]}
 
 
 def replay(ctx, payload):
